@@ -143,6 +143,11 @@ def run(c) -> CaseResult:
     expect_error = c["error"] in ("untagged", "weight-4d", "no-lr")
     try:
         groups, optimizer = call()
+        if layout != "generator" and not c["error"]:
+            # same parameters, second call: nothing may be carried over (tags, cached factors, mutated groups)
+            groups_b, _ = call()
+            if [float(g["lr"]) for g in groups_b] != [float(g["lr"]) for g in groups]:
+                res.fail(f"C10.second-call-differs:{opt}", f"lrs {[float(g['lr']) for g in groups]} then {[float(g['lr']) for g in groups_b]} for the same parameters")
     except ValueError as e:
         if expect_error:
             res.nontrivial = True
